@@ -7,7 +7,7 @@
 From Coq Require Import Permutation.
 From FrameModel Require Import Num.QcTac Geometry.Rect Alloc.Alloc Stog.CreateStog Stog.StogFacts Yaml.Tree
   Yaml.NetlistRead Yaml.NetlistWrite Yaml.NetlistFacts Yaml.NetlistDerived Yaml.NetlistRoundTrip
-  Yaml.NetlistImage Yaml.Netgen Yaml.DieAlloc Yaml.Producers Yaml.ProducersRT.
+  Yaml.NetlistImage Yaml.Netgen Yaml.DieAlloc Yaml.Producers Yaml.ProducersFacts Yaml.ProducersRT.
 Open Scope Qc_scope.
 Open Scope string_scope.
 
@@ -221,3 +221,15 @@ Proof.
   split; [exact Hm|]. split; [exact Hn|exact He].
 Qed.
 End Float.
+
+(* the hypotheses are satisfiable: the witnesses on which the builders as found lose data
+   (a weighted net, a rectangle with a region, integer coordinates; a terminal) *)
+Example legal_rt_example sqrt_o :
+  exists n, read_netlist sqrt_o eps_ref doc_weight_rects = Ok n /\ buildable n.
+Proof.
+  eexists. split; [vm_compute; reflexivity|]. split; [discriminate|]. repeat constructor; discriminate.
+Qed.
+Example solution_rt_example sqrt_o :
+  (exists n, read_netlist sqrt_o eps_ref doc_weight = Ok n) /\
+  (exists n, read_netlist sqrt_o eps_ref doc_terminal = Ok n).
+Proof. split; eexists; vm_compute; reflexivity. Qed.
